@@ -87,10 +87,10 @@ def bound(pattern, mode):
     key = (pattern, mode)
     if key not in _apps:
         from clastic import Application, Route
-        app = Application([Route(pattern, lambda: None)], slash_mode=mode)
-        _apps[key] = app.routes[0]
         if len(_apps) > 5000:
             _apps.clear()
+        app = Application([Route(pattern, lambda: None)], slash_mode=mode)
+        _apps[key] = app.routes[0]
     return _apps[key]
 
 
